@@ -11,9 +11,13 @@ import (
 	"bytes"
 
 	"github.com/oasisprotocol/oasis-core/go/common"
+	"github.com/oasisprotocol/oasis-core/go/common/cbor"
 	"github.com/oasisprotocol/oasis-core/go/common/crypto/signature"
+	memorySigner "github.com/oasisprotocol/oasis-core/go/common/crypto/signature/signers/memory"
+	"github.com/oasisprotocol/oasis-core/go/common/node"
 	"github.com/oasisprotocol/oasis-core/go/common/quantity"
 	abciAPI "github.com/oasisprotocol/oasis-core/go/consensus/cometbft/api"
+	registryState "github.com/oasisprotocol/oasis-core/go/consensus/cometbft/apps/registry/state"
 	roothashState "github.com/oasisprotocol/oasis-core/go/consensus/cometbft/apps/roothash/state"
 	stakingState "github.com/oasisprotocol/oasis-core/go/consensus/cometbft/apps/staking/state"
 	symx "github.com/oasisprotocol/oasis-core/go/internal/verifsymx"
@@ -137,4 +141,133 @@ func VerifRootSubmitMsg() {
 	symx.Assert(size < runtime.TxnScheduler.MaxInMessages, "message queued although the queue was full")
 	symx.Assert(meta.Size == size+1 && meta.NextSequenceNumber == next+1, "queue metadata not advanced by one")
 	symx.Assert(msg.Fee.Cmp(&runtime.Staking.MinInMessageFee) >= 0, "message accepted with a fee below the runtime's minimum")
+}
+
+// VerifRootEvidence: one SubmitEvidence transaction (proposal equivocation: two validly signed,
+// conflicting proposal headers of one node for one round). Symbolic: whether the signing node
+// is registered, the slash amount, the entity's escrow, rounds and the evidence age limit,
+// whether the same evidence was already recorded, the reward percentage.
+func VerifRootEvidence() {
+	signature.UnsafeResetChainContext()
+	signature.SetChainContext("aaaaaaaaaaaaaaaaaaaaaaaaaaaaaaaaaaaaaaaaaaaaaaaaaaaaaaaaaaaaaaaa")
+	appState := abciAPI.NewMockApplicationState(&abciAPI.MockApplicationStateConfig{})
+	ctx := appState.NewContext(abciAPI.ContextEndBlock)
+	app := &Application{appState, nil, nil}
+
+	var callerPK, entityPK, nodePK signature.PublicKey
+	callerPK[0], callerPK[31] = 1, 0x77
+	entityPK[0], entityPK[31] = 3, 0x77
+	var signer signature.Signer
+	if symx.Symbolic() {
+		nodePK[0], nodePK[31] = 2, 0x77
+	} else {
+		signer = memorySigner.NewTestSigner("verif rootapp equivocating node")
+		nodePK = signer.Public()
+	}
+	caller, entityAddr := staking.NewAddress(callerPK), staking.NewAddress(entityPK)
+
+	var rtID common.Namespace
+	rtID[0] = 0x80
+	runtime := registry.Runtime{ID: rtID}
+	runtime.Staking.Slashing = map[staking.SlashReason]staking.Slash{
+		staking.SlashRuntimeEquivocation: {Amount: *hQ("slashAmount")},
+	}
+	pct := symx.Uint8("runtimeRewardPercent")
+	symx.Assume(pct <= 100)
+	runtime.Staking.RewardSlashEquvocationRuntimePercent = pct
+
+	st := stakingState.NewMutableState(ctx.State())
+	hMust(st.SetConsensusParameters(ctx, &staking.ConsensusParameters{}), "staking.SetConsensusParameters")
+	total := quantity.NewQuantity()
+	ent := &staking.Account{}
+	ent.Escrow.Active.Balance = *hQ("entityEscrow")
+	ent.Escrow.Active.TotalShares = *hQ("entityShares")
+	symx.Assume(!ent.Escrow.Active.TotalShares.IsZero() || ent.Escrow.Active.Balance.IsZero())
+	_ = total.Add(&ent.Escrow.Active.Balance)
+	hMust(st.SetAccount(ctx, entityAddr, ent), "SetAccount")
+	if !ent.Escrow.Active.TotalShares.IsZero() {
+		hMust(st.SetDelegation(ctx, entityAddr, entityAddr, &staking.Delegation{Shares: ent.Escrow.Active.TotalShares}), "SetDelegation")
+	}
+	cAcct := &staking.Account{}
+	cAcct.General.Balance = *hQ("callerBalance")
+	_ = total.Add(&cAcct.General.Balance)
+	hMust(st.SetAccount(ctx, caller, cAcct), "SetAccount")
+	cp := hQ("commonPool")
+	_ = total.Add(cp)
+	hMust(st.SetCommonPool(ctx, cp), "SetCommonPool")
+	hMust(st.SetTotalSupply(ctx, total), "SetTotalSupply")
+
+	if symx.Bool("nodeRegistered") {
+		nd := &node.Node{Versioned: cbor.NewVersioned(node.LatestNodeDescriptorVersion), ID: nodePK, EntityID: entityPK, Expiration: 100, Roles: node.RoleComputeWorker}
+		var k [4]signature.PublicKey
+		for i := range k {
+			k[i][0], k[i][31] = byte(20+i), 0x77
+		}
+		nd.Consensus.ID, nd.P2P.ID, nd.TLS.PubKey, nd.VRF.ID = k[0], k[1], k[2], k[3]
+		sn := &node.MultiSignedNode{}
+		sn.Blob = cbor.Marshal(nd)
+		hMust(registryState.NewMutableState(ctx.State()).SetNode(ctx, nil, nd, sn), "SetNode")
+	}
+
+	committee := scheduler.Committee{RuntimeID: rtID, Kind: scheduler.KindComputeExecutor,
+		Members: []*scheduler.CommitteeNode{{Role: scheduler.RoleWorker, PublicKey: nodePK}}}
+	rs := roothashState.NewMutableState(ctx.State())
+	hMust(rs.SetConsensusParameters(ctx, &roothash.ConsensusParameters{MaxRuntimeMessages: 32, MaxEvidenceAge: symx.Uint64("maxEvidenceAge")}), "roothash.SetConsensusParameters")
+	blk := block.NewGenesisBlock(rtID, 0)
+	blk.Header.Round = symx.Uint64("currentRound")
+	hMust(rs.SetRuntimeState(ctx, &roothash.RuntimeState{
+		Runtime: &runtime, GenesisBlock: blk, LastBlock: blk, LastBlockHeight: 1, LastNormalHeight: 1,
+		CommitmentPool: commitment.NewPool(), Committee: &committee,
+	}), "SetRuntimeState")
+
+	// the evidence: two conflicting proposals for one round, both signed by the node
+	round := symx.Uint64("evidenceRound")
+	mk := func(batch byte) commitment.Proposal {
+		p := commitment.Proposal{NodeID: nodePK, Header: commitment.ProposalHeader{Round: round}}
+		p.Header.BatchHash[0] = batch
+		if symx.Symbolic() {
+			sigCtx, err := commitment.ProposalSignatureContext.WithSuffix(rtID.String())
+			hMust(err, "WithSuffix")
+			msg, err := signature.PrepareSignerMessage(sigCtx, cbor.Marshal(p.Header))
+			hMust(err, "PrepareSignerMessage")
+			copy(p.Signature[:], symx.HonestSignature(nodePK[:], msg))
+		} else {
+			hMust(p.Sign(signer, rtID), "Sign")
+		}
+		return p
+	}
+	ev := &roothash.Evidence{ID: rtID, EquivocationProposal: &roothash.EquivocationProposalEvidence{ProposalA: mk(1), ProposalB: mk(2)}}
+	if symx.Bool("alreadyRecorded") {
+		h, err := ev.Hash()
+		hMust(err, "Evidence.Hash")
+		hMust(rs.SetEvidenceHash(ctx, rtID, round, h), "SetEvidenceHash")
+	}
+
+	before := hSnapshot(ctx)
+	txCtx := appState.NewContext(abciAPI.ContextDeliverTx)
+	txCtx.SetTxSigner(callerPK)
+	err := app.submitEvidence(txCtx, roothashState.NewMutableState(txCtx.State()), ev)
+	txCtx.Close()
+
+	if err != nil {
+		symx.Assert(hSame(before, hSnapshot(ctx)), "a failed SubmitEvidence changed the consensus state")
+		symx.Cover("evidence-failed")
+		return
+	}
+	symx.Cover("evidence-ok")
+	h, _ := ev.Hash()
+	exists, xerr := rs.EvidenceHashExists(ctx, rtID, round, h)
+	symx.Assert(xerr == nil && exists, "accepted evidence not recorded")
+	// the slashed funds only move: supply unchanged
+	sum := quantity.NewQuantity()
+	for _, a := range []staking.Address{entityAddr, caller, staking.NewRuntimeAddress(rtID)} {
+		acct, aerr := st.Account(ctx, a)
+		hMust(aerr, "Account")
+		_ = sum.Add(&acct.General.Balance)
+		_ = sum.Add(&acct.Escrow.Active.Balance)
+		_ = sum.Add(&acct.Escrow.Debonding.Balance)
+	}
+	cpAfter, _ := st.CommonPool(ctx)
+	_ = sum.Add(cpAfter)
+	symx.Assert(sum.Cmp(total) == 0, "slashing for equivocation changed the total of balances and pools")
 }
